@@ -98,6 +98,7 @@ namespace detail
 		}
 	};
 
+#	if GLM_ARCH & GLM_ARCH_SSE41_BIT // _mm_min/max_epi32/epu32 are SSE4.1 instructions
 	template<qualifier Q>
 	struct compute_min_vector<4, int, Q, true>
 	{
@@ -108,7 +109,9 @@ namespace detail
 			return result;
 		}
 	};
+#	endif
 
+#	if GLM_ARCH & GLM_ARCH_SSE41_BIT // _mm_min/max_epi32/epu32 are SSE4.1 instructions
 	template<qualifier Q>
 	struct compute_min_vector<4, uint, Q, true>
 	{
@@ -119,6 +122,7 @@ namespace detail
 			return result;
 		}
 	};
+#	endif
 
 	template<qualifier Q>
 	struct compute_max_vector<4, float, Q, true>
@@ -131,6 +135,7 @@ namespace detail
 		}
 	};
 
+#	if GLM_ARCH & GLM_ARCH_SSE41_BIT // _mm_min/max_epi32/epu32 are SSE4.1 instructions
 	template<qualifier Q>
 	struct compute_max_vector<4, int, Q, true>
 	{
@@ -141,7 +146,9 @@ namespace detail
 			return result;
 		}
 	};
+#	endif
 
+#	if GLM_ARCH & GLM_ARCH_SSE41_BIT // _mm_min/max_epi32/epu32 are SSE4.1 instructions
 	template<qualifier Q>
 	struct compute_max_vector<4, uint, Q, true>
 	{
@@ -152,6 +159,7 @@ namespace detail
 			return result;
 		}
 	};
+#	endif
 
 	template<qualifier Q>
 	struct compute_clamp_vector<4, float, Q, true>
@@ -164,6 +172,7 @@ namespace detail
 		}
 	};
 
+#	if GLM_ARCH & GLM_ARCH_SSE41_BIT // _mm_min/max_epi32/epu32 are SSE4.1 instructions
 	template<qualifier Q>
 	struct compute_clamp_vector<4, int, Q, true>
 	{
@@ -174,7 +183,9 @@ namespace detail
 			return result;
 		}
 	};
+#	endif
 
+#	if GLM_ARCH & GLM_ARCH_SSE41_BIT // _mm_min/max_epi32/epu32 are SSE4.1 instructions
 	template<qualifier Q>
 	struct compute_clamp_vector<4, uint, Q, true>
 	{
@@ -185,6 +196,7 @@ namespace detail
 			return result;
 		}
 	};
+#	endif
 
 	template<qualifier Q>
 	struct compute_mix_vector<4, float, bool, Q, true>
